@@ -51,8 +51,10 @@ def adversarial_tpl(g, rng, tid):
     if k < 0.2:
         return Tpl(tid, [], []), rng.random() < 0.3
     if k < 0.45:
+        # zero-length fields: of known elements, of elements missing from the model, and of both (a record then consumes nothing)
         n = rng.choice([1, 2, 5])
-        return Tpl(tid, [], [(rng.choice([1, 2, 8, 4, 152, 210]), 0, 0) for _ in range(n)]), False
+        pool = rng.choice([[1, 2, 8, 4, 152, 210], [40001, 31000, 39999], [1, 40001, 8, 31000]])
+        return Tpl(tid, [], [(rng.choice(pool), 0, 0) for _ in range(n)]), False
     if k < 0.6:
         return Tpl(tid, [], [(rng.choice([1, 8, 4, 27, 56]), 0, rng.choice([65535, 65534, 30000]))]), False
     if k < 0.75:
@@ -149,10 +151,18 @@ class FlowRobust:
                 rec = struct.pack(">II", 1, 16) + struct.pack(">IIII", rng.choice([1, 11, 12, 5]), 100, 0, hl) + bytes(rng.randrange(256) for _ in range(rng.choice([0, 4, 60])))
             else:
                 rec = b""
-            nrec = 1 if kind != "counts" else rng.choice([0, 2, 0xffffffff, 0x10000])
+            nrec = 1 if kind != "counts" else rng.choice([0, 2, 0xffffffff, 0x10000, 4000000, 0x1fffffff])
             fs = struct.pack(">IIIIIIII", 1, 0, 1, 1, 0, 1, 2, nrec) + rec
             ns = 1 if kind != "counts" else rng.choice([1, 2, 0xffffffff])
-            p = struct.pack(">II", 5, 1) + bytes([10, 0, 0, 1]) + struct.pack(">IIII", 0, 1, 2, ns) + struct.pack(">II", 1, len(fs)) + fs
+            styp, slen = 1, len(fs)
+            if kind == "counts" and rng.random() < 0.5:
+                # a counter sample with a hostile record count
+                fs = struct.pack(">III", 1, 2, nrec) + rec
+                styp, slen = 2, len(fs)
+            if kind == "counts":
+                # ... and a DECLARED sample length that 'confirms' the count (a bound taken from the wire instead of from the octets received)
+                slen = rng.choice([slen, slen, 0xfffffff0, 0x7ffffff0, (nrec * 8) & 0xffffffff, (nrec * 8 + 32) & 0xffffffff])
+            p = struct.pack(">II", 5, 1) + bytes([10, 0, 0, 1]) + struct.pack(">IIII", 0, 1, 2, ns) + struct.pack(">II", styp, slen) + fs
         else:
             p, _, _ = sfgen.gen_datagram(rng)
             for _ in range(rng.choice([0, 1, 1, 2])):
